@@ -3,6 +3,9 @@ package beaconblock
 import (
 	"math/rand"
 
+	"github.com/protolambda/ztyp/tree"
+	"verifharness/internal/flatblock"
+
 	"github.com/protolambda/zrnt/eth2/beacon/common"
 	"github.com/protolambda/zrnt/eth2/beacon/phase0"
 	"github.com/protolambda/ztyp/view"
@@ -13,7 +16,7 @@ import (
 
 // extraMutants are this component's additions to chain.Mutations: block shapes the SSZ layer would refuse but
 // the typed API lets through (malformed / over-long bitlists, over-limit index lists).
-func extraMutants(c *chain.Chain, s *chain.Step, rng *rand.Rand) []chain.Mutant {
+func extraMutants(c *chain.Chain, s *chain.Step, fs *flat.State, rng *rand.Rand) []chain.Mutant {
 	var out []chain.Mutant
 	add := func(label, rule string, f func(b *chain.SignedBlock, body chain.BodyRef) bool) {
 		b := s.Block.Clone(c.Spec)
@@ -22,6 +25,107 @@ func extraMutants(c *chain.Chain, s *chain.Step, rng *rand.Rand) []chain.Mutant 
 		}
 		c.SignBlock(b, s.PreBlock)
 		out = append(out, chain.Mutant{Label: label, Rule: rule, Resigned: true, Block: b})
+	}
+	// Cross-fork replays made with this package's OWN domain code (not zrnt's GetDomain): every signed object signed
+	// under the fork version the specification does NOT prescribe for its epoch (previous version at or after the
+	// fork epoch, current version before it). Only where the state's fork record has two different versions.
+	if fs.ForkPrevVersion != fs.ForkCurrVersion {
+		spe := uint64(c.Spec.SLOTS_PER_EPOCH)
+		wrong := func(t [4]byte, epoch uint64) [32]byte {
+			v := fs.ForkPrevVersion
+			if epoch < fs.ForkEpoch {
+				v = fs.ForkCurrVersion
+			}
+			return computeDomain(t, v, fs.GenesisValidatorsRoot)
+		}
+		rel := func(epoch uint64) string {
+			switch {
+			case epoch == fs.ForkEpoch:
+				return "at-fork-epoch"
+			case epoch+1 == fs.ForkEpoch:
+				return "fork-epoch-1"
+			case epoch == fs.ForkEpoch+1:
+				return "fork-epoch+1"
+			case epoch < fs.ForkEpoch:
+				return "before-fork"
+			}
+			return "after-fork"
+		}
+		cur := fs.Slot / spe
+		keyOf := func(v common.ValidatorIndex) (int, bool) { return c.KeyOf(v) }
+		if k, ok := keyOf(s.Proposer); ok {
+			out = append(out, func() chain.Mutant {
+				b := s.Block.Clone(c.Spec)
+				tb, _ := flatblockOf(b)
+				*b.Header().Signature = c.Keys.Sign(k, signingRoot(tb.MessageRoot(c.Spec), wrong(domainBeaconProposer, cur)))
+				return chain.Mutant{Label: "block.signature:wrong-fork-version(" + rel(cur) + ")", Rule: "block.signature.fork", Block: b}
+			}())
+			add("randao_reveal:wrong-fork-version("+rel(cur)+")", "randao.signature.fork", func(b *chain.SignedBlock, body chain.BodyRef) bool {
+				*body.RandaoReveal = c.Keys.Sign(k, signingRoot(epochRoot(cur), wrong(domainRandao, cur)))
+				return true
+			})
+		}
+		hf := tree.GetHashFn()
+		for i := range *s.Block.Body().VoluntaryExits {
+			i := i
+			e := &(*s.Block.Body().VoluntaryExits)[i]
+			if flat.ForkIndex(fs.Fork) >= 4 {
+				break // deneb: the exit domain is fixed to the capella version (EIP-7044)
+			}
+			if k, ok := keyOf(e.Message.ValidatorIndex); ok {
+				ep := uint64(e.Message.Epoch)
+				add("voluntary_exit.signature:wrong-fork-version("+rel(ep)+")", "exit.signature.fork", func(b *chain.SignedBlock, body chain.BodyRef) bool {
+					x := &(*body.VoluntaryExits)[i]
+					x.Signature = c.Keys.Sign(k, signingRoot(x.Message.HashTreeRoot(hf), wrong(domainVoluntaryExit, ep)))
+					return true
+				})
+			}
+			break
+		}
+		for _, op := range s.Ops {
+			if op.Kind != chain.OpAttestation || op.Index >= len(*s.Block.Body().Attestations) {
+				continue
+			}
+			keys := make([]int, 0, len(op.Validators))
+			okAll := true
+			for _, v := range op.Validators {
+				k, ok := keyOf(v)
+				okAll = okAll && ok
+				keys = append(keys, k)
+			}
+			if !okAll || len(keys) == 0 {
+				continue
+			}
+			i := op.Index
+			te := uint64((*s.Block.Body().Attestations)[i].Data.Target.Epoch)
+			add("attestation.signature:wrong-fork-version("+rel(te)+")", "attestation.signature.fork", func(b *chain.SignedBlock, body chain.BodyRef) bool {
+				a := &(*body.Attestations)[i]
+				a.Signature = c.Keys.SignAggregate(keys, signingRoot(a.Data.HashTreeRoot(hf), wrong(domainBeaconAttester, te)))
+				return true
+			})
+			break
+		}
+		if sa := s.Block.Body().SyncAggregate; sa != nil && fs.CurrentSyncCommittee != nil && fs.Slot > 0 {
+			var keys []int
+			okAll := true
+			for j, pk := range fs.CurrentSyncCommittee.Pubkeys {
+				if j/8 < len(sa.SyncCommitteeBits) && (sa.SyncCommitteeBits[j/8]>>(uint(j)%8))&1 == 1 {
+					k, ok := c.Keys.IndexOf(pk)
+					okAll = okAll && ok
+					keys = append(keys, k)
+				}
+			}
+			sphr := uint64(c.Spec.SLOTS_PER_HISTORICAL_ROOT)
+			if okAll && len(keys) > 0 && uint64(len(fs.BlockRoots)) == sphr {
+				prev := fs.Slot - 1
+				pe := prev / spe
+				root := fs.BlockRoots[prev%sphr]
+				add("sync_aggregate.signature:wrong-fork-version("+rel(pe)+")", "sync_aggregate.signature.fork", func(b *chain.SignedBlock, body chain.BodyRef) bool {
+					body.SyncAggregate.SyncCommitteeSignature = c.Keys.SignAggregate(keys, signingRoot(root, wrong(domainSyncCommittee, pe)))
+					return true
+				})
+			}
+		}
 	}
 	if n := len(*s.Block.Body().Attestations); n > 0 {
 		i := rng.Intn(n)
@@ -333,3 +437,5 @@ func submitOddDeposit(c *chain.Chain, rng *rand.Rand, key int) string {
 		return "bad-pop-then-good-pop"
 	}
 }
+
+func flatblockOf(b *chain.SignedBlock) (*flatblock.Typed, error) { return flatblock.Of(b.Obj) }
